@@ -78,7 +78,10 @@ def enumerate_programs(cls_name, table, maxopts, wd):
 
 PREFIXES = {
     "TaskPool": [[], [("apply ctlfuncs.work --num 2 --group-name g1",
-                       {"kind": "call", "m": "apply", "args": [{"$path": "ctlfuncs.work"}], "kwargs": {"num": 2, "group_name": "g1"}})]],
+                       {"kind": "call", "m": "apply", "args": [{"$path": "ctlfuncs.work"}], "kwargs": {"num": 2, "group_name": "g1"}})],
+                 # a task that has failed: flush / gather-and-close then raise, and the reply must be that exception's str()
+                 [("apply ctlfuncs.fail --group-name g1",
+                   {"kind": "call", "m": "apply", "args": [{"$path": "ctlfuncs.fail"}], "kwargs": {"group_name": "g1"}})]],
     "SubPool": [[]],
     "SimpleTaskPool": [[], [("start 2", {"kind": "call", "m": "start", "args": [2]})]],
 }
